@@ -41,6 +41,9 @@ TEMPLATE_BODIES = [
     "<noinclude>doc</noinclude><includeonly>inc</includeonly>", "<onlyinclude>oi</onlyinclude> rest",
     "[[File:Deep.png|thumb|{{{1|cap}}}]]", "\n* a\n* b\n", "{{#if:{{{1|}}}|yes|no}}", "'''{{{1}}}", "</div>", "{{",
     "}}", "{{{", "<ref>r {{{1}}}</ref>", "== h ==", "|-\n| c", "{{#switch:{{{1}}}|a=A|b|c=BC|#default=D}}",
+    # templates that include themselves / each other from inside a tag whose body is expanded and parsed on its own
+    "y<ref>{{loop}}</ref>", "<poem>p {{loop}}</poem>", "<gallery>\nFile:A.png|{{loop}}\n</gallery>", "<ref>{{a}}</ref>", "<ref>{{b}}</ref>",
+    "{{#tag:ref|{{loop}}}}", "<ref name=\"l\">{{t}}</ref>",
 ]
 TEMPLATE_KEYS = ["t", "T2", "box", "loop", "a", "b", "missing-not-here"]
 
